@@ -29,14 +29,14 @@ import (
 type Scenario struct {
 	Seed     int64    `json:"seed"`
 	N        int      `json:"n"`
-	Script   []string `json:"script"` // per request ordinal (arrival order at the broker): ok | throttled | wrongcorr | swap | truncated | oversized | negative | short | garbage | close | stall | partial
+	Script   []string `json:"script"` // per request ordinal (arrival order at the broker): ok | silence (this and every later request on the connection is read but never answered) | throttled | wrongcorr | swap | truncated | oversized | negative | short | garbage | close | stall | partial
 	Cancel   []int    `json:"cancel"` // request ids whose context is cancelled at CancelMs
 	CancelMs int      `json:"cancelMs"`
 	BatchMs  int      `json:"batchMs"` // the broker answers what has arrived every BatchMs (pipelining)
 	Waves    int      `json:"waves"`   // requests are issued in this many waves, 30 ms apart
 }
 
-var behaviours = []string{"ok", "ok", "ok", "ok", "throttled", "wrongcorr", "swap", "truncated", "oversized", "negative", "short", "garbage", "close", "stall", "partial"}
+var behaviours = []string{"ok", "ok", "ok", "ok", "silence", "silence", "throttled", "wrongcorr", "swap", "truncated", "oversized", "negative", "short", "garbage", "close", "stall", "partial"}
 
 func gen(seed int64) Scenario {
 	r := rand.New(rand.NewSource(seed))
@@ -76,6 +76,7 @@ type broker struct {
 	queue   []pending
 	batch   time.Duration
 	done    chan struct{}
+	silent  map[net.Conn]bool // connections on which the broker has gone silent: it keeps reading, never answers again
 }
 
 func (b *broker) accept() {
@@ -182,6 +183,9 @@ func (b *broker) flush() {
 		if p.ordinal-1 < len(b.script) {
 			beh = b.script[p.ordinal-1]
 		}
+		if b.silent[p.conn] {
+			beh = "silence"
+		}
 		if beh == "swap" && i+1 >= len(q) {
 			beh = "ok" // nothing to swap with
 		}
@@ -226,6 +230,10 @@ func (b *broker) flush() {
 			p.conn.Write(frame(p.corr, flex, g))
 		case "close":
 			p.conn.Close()
+		case "silence":
+			b.mu.Lock()
+			b.silent[p.conn] = true
+			b.mu.Unlock()
 		case "stall":
 			// never answered
 		}
@@ -256,7 +264,7 @@ func runScenario(t *testing.T, rec *sim.Recorder, sc Scenario) {
 		if err != nil {
 			t.Fatal(err)
 		}
-		b := &broker{ln: ln, rec: rec, script: sc.Script, batch: time.Duration(sc.BatchMs) * time.Millisecond, done: make(chan struct{})}
+		b := &broker{ln: ln, rec: rec, script: sc.Script, silent: map[net.Conn]bool{}, batch: time.Duration(sc.BatchMs) * time.Millisecond, done: make(chan struct{})}
 		go b.accept()
 		go b.ticker()
 		cl, err := kgo.NewClient(kgo.SeedBrokers("127.0.0.1:9092"), kgo.Dialer(vnet.DialContext), kgo.RequestRetries(0), kgo.DisableClientMetrics(),
